@@ -208,6 +208,10 @@ def V1_tables(ctx):
         else:
             if any(h['changed'] for h in hs):
                 bad.append(p)
+            # ... and a slot found claimable IS claimed: the cursor has moved past it, nobody will offer it again
+            for h in hs:
+                if h['onboard'] is True and h['dep'] == 'None' and not h['changed']:
+                    bad.append(p)
     ctx.ob('V1', f, 'claim-table', n_some >= 1 and not bad, f'{len(bad)} deviating path(s): ' + (describe(bad[0]) if bad else ''), site=f.loc(f.b['lo']),
            what='Some(i) ⇔ i = index.fetch_add(1) < n ∧ onboard(i) ∧ dependency(i)=None, and the claim clears onboard under DS[i] (exactly one claimer); other paths change nothing')
     # remove(): stale-edge re-check; hand-off
@@ -248,6 +252,19 @@ def V1_tables(ctx):
             emp = [a for a in p.events if bool_fact(a) and bool_fact(a)[0][0] == 'call' and bool_fact(a)[0][1].endswith('::is_empty') and bool_fact(a)[1] is True]
             if not emp:
                 bad.append(('returns-without-visiting-the-dependants-although-the-set-was-not-found-empty', p.events[-1]))
+    # ... and a dependant that still names this txid IS released (cleared; rewound or handed over when onboard)
+    for p in feasible(f.paths()):
+        for h in track_ds(p):
+            named = False
+            for a in p.events[h['acquire']:h['release'] or len(p.events)]:
+                if a.kind == 'atom':
+                    n = norm_cmp(a)
+                    if n and n[0] == 'Eq':
+                        for l, r in ((n[1], n[2]), (n[2], n[1])):
+                            if l[0] == 'field' and ds_place(l) and ds_place(l)[1] == 'dependency' and r[0] == 'agg' and r[2] == 'Some' and r[3] == (('arg', 2),):
+                                named = True
+            if named and not (h['changed'] and h['dep'] == 'None'):
+                bad.append(('a-dependant-that-still-names-this-transaction-is-not-released', p.events[h['acquire']]))
     ctx.count('V1.remove-clears', n_clear)
     ctx.ob('V1', f, 'remove-table', n_clear >= 1 and n_hand >= 1 and not bad,
            f'clears={n_clear} handoffs={n_hand}; ' + '; '.join(f'{w} at {site(f, e)}' for w, e in bad[:3]), site=f.loc(f.b['lo']),
